@@ -102,6 +102,7 @@ class MPUChunk:
             self.parts,
             self.observed,
             self.is_final,
+            self.lhs_keep,
         )
 
     def __repr__(self) -> str:
